@@ -116,9 +116,37 @@ def _run_one(args):
                 break
             rec['status'] = 'unknown'
             rec['reason'] = r.get('reason')
+            break          # one undecided path instance decides the verdict of the name (a counter-model is searched in refutation mode below)
         if rec['status'] != 'discharged':
             n_bad += 1
         out['obligations'].append(rec)
+    # refutation mode (DESIGN 3.2): obligations left undecided are re-posed with the integer size parameters of the harness fixed to small values, where
+    # symbolic-shape arrays become finite and quantified facts expand; a model found there is a genuine counter-model of the (size-quantified) obligation.
+    # It only ever turns `unknown` into `refuted`; nothing is discharged by it.
+    if not sizes and spec['expect'] != 'refuted' and any(o['status'] == 'unknown' for o in out['obligations']) and os.environ.get('PVC_NO_REFUTE') != '1':
+        int_syms = [n for n, v in ctx.named.items() if z3.is_int(v)]
+        cands = spec.get('refute_sizes') or ([{n: 2 for n in int_syms}, {n: 2 + k for k, n in enumerate(int_syms)},
+                                              {n: 2 + k for k, n in enumerate(reversed(int_syms))}, {n: 3 for n in int_syms}] if int_syms else [])
+        want = {o['name'] for o in out['obligations'] if o['status'] == 'unknown' and 'not attempted' not in str(o.get('reason'))}
+        t_ref = time.time()
+        for sz in cands:
+            if not want or time.time() - t_ref > 180:
+                break
+            ctx2 = Context(prop, name, mode='refute', sizes=dict(sz))
+            try:
+                obls2 = explore(thunk, ctx2)
+            except Exception:
+                continue
+            for ob in obls2:
+                if ob.name not in want or z3.is_true(ob.goal):
+                    continue
+                r = smt.solve([smt.expand_bounded(h) for h in ob.hyps] + [z3.Not(ob.goal)], timeout_ms=min(timeout, 10000), fallback=False)
+                if r['status'] == 'sat' and not _has_incomplete_ghost(ob):
+                    for rec in out['obligations']:
+                        if rec['name'] == ob.name:
+                            rec.update(status='refuted', model=dict(r.get('model') or {}, **{f'size:{k}': v for k, v in sz.items()}), path=ob.path,
+                                       backend=(r['backend'] or '') + ' (refutation mode, sizes fixed)')
+                    want.discard(ob.name)
     if obls and not vac_checked:
         # satisfiability of the hypotheses of the last path (requires-vacuity guard)
         last = obls[-1]
@@ -142,7 +170,7 @@ def run_property(prop, tier='quick', only=None, jobs=None, sizes=None):
     args = [(prop, n, tier, sizes) for n in names]
     if jobs == 1 or len(args) <= 1:
         return [_run_one(a) for a in args]
-    wall = int(os.environ.get('PVC_HARNESS_WALL_S', '420' if tier == 'quick' else '2400'))
+    wall = int(os.environ.get('PVC_HARNESS_WALL_S', '900' if tier == 'quick' else '3000'))
     ctxm = mp.get_context('spawn')
     out = []
     with ctxm.Pool(jobs, maxtasksperchild=1) as pool:
